@@ -66,7 +66,7 @@ theorem undecodable_member_list (E : Env) (s : State) (b : Bytes) (h : Header) (
   refine ⟨.err .decode, ?_⟩
   have hb : ¬ b.length > s.cfg.mps := by omega
   have hl : ¬ ((hi :: lo :: r).length = 1) := by simp
-  simp [step, runOp, handleData, hb, h2, h3, Gen.trailingByteBad, Gen.sectionMinBytes, h4, h4', h5, h6]
+  simp [step, runOp, handleData, parseSection, hb, h2, h3, Gen.trailingByteBad, Gen.sectionMinBytes, h4, h4', h5, h6]
 
 theorem stale_epoch_timer (E : Env) (s : State) (t : Timer) (tok : Nat)
     (ht : C13.Timer.token? t = some tok) (hne : tok ≠ s.token) : NoTrace E s (.timer t) := by
